@@ -3,10 +3,13 @@ package props
 import (
 	"encoding/json"
 	"fmt"
+	"go/ast"
 	"os"
 	"path/filepath"
 	"sort"
 	"strings"
+
+	"verif/internal/an"
 )
 
 // Upstream guard rule (C33.9 client side, C34.9 server side).
@@ -80,10 +83,18 @@ func upstreamBoundsSites(c *Ctx, pp *prProg, roots [][2]string, rule string) ([]
 		if v.rule != "bounds" || v.class == "delegated" {
 			continue
 		}
+		ex, _ := v.s.n.(ast.Expr)
 		base := v.s.f.Name() + ":" + v.s.Expr()
+		if ex != nil {
+			base = v.s.f.Name() + ":" + prNormExpr(v.s.fn, ex)
+		}
 		ord := seen[base]
 		seen[base]++
-		out = append(out, upstreamSite{key: v.s.key(ord), pos: c.Pos(v.s.n), why: v.why, ok: v.class == "ok"})
+		key := base
+		if ord > 0 {
+			key += fmt.Sprintf("#%d", ord+1)
+		}
+		out = append(out, upstreamSite{key: key, pos: c.Pos(v.s.n), why: v.why, ok: v.class == "ok"})
 	}
 	return out, len(reach.order)
 }
@@ -165,4 +176,68 @@ var c34UpstreamRoots = [][2]string{{"Conn", "serverHandshake"}, {"Conn", "readCl
 func init() {
 	registerExtra("C33", func(c *Ctx) { upstreamBoundsRule(c, newPrProg(c), "C33.9", c33UpstreamRoots) })
 	registerExtra("C34", func(c *Ctx) { upstreamBoundsRule(c, newPrProg(c), "C34.9", c34UpstreamRoots) })
+}
+
+// prNormExpr renders an expression with single-definition locals replaced by their defining
+// expressions, so that hoisting a repeated sub-expression into a local (or renaming that local)
+// does not change the key a site is listed under.
+func prNormExpr(fn *an.Fn, e ast.Expr) string {
+	var r func(e ast.Expr, depth int) string
+	r = func(e ast.Expr, depth int) string {
+		if e == nil {
+			return ""
+		}
+		switch x := e.(type) {
+		case *ast.ParenExpr:
+			return "(" + r(x.X, depth) + ")"
+		case *ast.Ident:
+			if fn != nil && depth < 4 {
+				if d := inlineLocal(fn, x); d != ast.Expr(x) {
+					// only plain access paths and conversions are read through; a call result is not
+					// the same value when re-evaluated
+					ok := true
+					ast.Inspect(d, func(n ast.Node) bool {
+						if c, isCall := n.(*ast.CallExpr); isCall {
+							if tv, has := fn.Info.Types[c.Fun]; !has || !tv.IsType() {
+								ok = false
+							}
+						}
+						return ok
+					})
+					if ok {
+						return r(d, depth+1)
+					}
+				}
+			}
+			return x.Name
+		case *ast.SelectorExpr:
+			return r(x.X, depth) + "." + x.Sel.Name
+		case *ast.IndexExpr:
+			return r(x.X, depth) + "[" + r(x.Index, depth) + "]"
+		case *ast.SliceExpr:
+			s := r(x.X, depth) + "[" + r(x.Low, depth) + ":" + r(x.High, depth)
+			if x.Max != nil {
+				s += ":" + r(x.Max, depth)
+			}
+			return s + "]"
+		case *ast.StarExpr:
+			return "*" + r(x.X, depth)
+		case *ast.UnaryExpr:
+			return x.Op.String() + r(x.X, depth)
+		case *ast.BinaryExpr:
+			return r(x.X, depth) + " " + x.Op.String() + " " + r(x.Y, depth)
+		case *ast.CallExpr:
+			var as []string
+			for _, a := range x.Args {
+				as = append(as, r(a, depth))
+			}
+			return r(x.Fun, depth) + "(" + strings.Join(as, ", ") + ")"
+		}
+		return an.Str(e)
+	}
+	s := r(e, 0)
+	if len(s) > 90 {
+		s = s[:87] + "..."
+	}
+	return s
 }
